@@ -17,7 +17,7 @@ from .driver import make_exc
 ASYNC_FLAVOURS = ("agen", "aclass", "aclass_noclose", "aplain", "agenlike", "aeager", "aeagerstop", "aproxy", "areiter", "alateclose", "agencoro")
 SYNC_FLAVOURS = ("list", "seq", "iter", "tuple", "tuplesub", "reiter", "sgen", "ringlist")
 SRC_FLAVOURS = ASYNC_FLAVOURS + SYNC_FLAVOURS
-FN_FLAVOURS = ("def", "async", "partial", "obj", "objaw", "falsyobj", "eqobj", "unhashobj", "aeqobj", "gencoro", "classaw", "defcoro")
+FN_FLAVOURS = ("def", "async", "partial", "obj", "objaw", "falsyobj", "eqobj", "unhashobj", "aeqobj", "gencoro", "classaw", "defcoro", "eagercoro")
 
 
 class SourceBase:
@@ -698,6 +698,19 @@ class Fn:
 
         if fl == "defcoro":
             return coro  # a plain ``def`` (or lambda) that returns a coroutine: not a coroutine FUNCTION
+        if fl == "eagercoro":
+            # ... that does its actual work (and fails, if it is going to) when it is CALLED; the coroutine it
+            # returns only delivers the result
+            async def deliver(result):
+                for _ in range(self.susp):
+                    await self.ctx.suspend((self.name, "call"))
+                return result
+
+            def eager(*args):
+                self.invoked += 1
+                return deliver(self._result(args))
+
+            return eager
         if fl == "async":
             async def counted(*args):
                 self.invoked += 1
@@ -867,3 +880,34 @@ class CallSource(SourceBase):
         return CallObj()
 
     released = True
+
+
+class ForwardingAsyncGenerator:
+    """a complete asynchronous generator that is not a NATIVE one (a tracing / forwarding wrapper, a compiled
+    generator): the whole protocol, but no ``ag_frame`` / ``ag_running`` and not an instance of the generator type"""
+
+    def __init__(self, agen):
+        self._agen = agen
+
+    def __aiter__(self):
+        return self
+
+    def __anext__(self):
+        return self._agen.__anext__()
+
+    def asend(self, value):
+        return self._agen.asend(value)
+
+    def athrow(self, *args):
+        return self._agen.athrow(*args)
+
+    def aclose(self):
+        return self._agen.aclose()
+
+
+def forwarding(agen_function):
+    """the generator function ``agen_function`` with its generators wrapped into ForwardingAsyncGenerator"""
+    def make(*args, **kwargs):
+        return ForwardingAsyncGenerator(agen_function(*args, **kwargs))
+
+    return make
